@@ -39,11 +39,24 @@ def convert(path, root):
             continue
         pid, rest = m.group(1), m.group(2)
         if rest.endswith("<unfinished ...>"):
-            pending[pid] = rest[: -len("<unfinished ...>")].rstrip()
-            continue
-        r = re.match(r"^<\.\.\. (\w+) resumed>(.*)$", rest)
-        if r:
-            rest = pending.pop(pid, r.group(1) + "(") + r.group(2)
+            head = rest[: -len("<unfinished ...>")].rstrip()
+            mc = re.match(r"^close\((\d+)", head)
+            if mc:
+                # the descriptor number is free again as soon as close() is ENTERED: another thread's
+                # openat may return the same number before this call is logged as resumed.  Handle
+                # the close now; its `resumed` line is ignored.
+                rest = f"close({mc.group(1)}) = 0"
+                pending[pid] = "close_done"
+            else:
+                pending[pid] = head
+                continue
+        else:
+            r = re.match(r"^<\.\.\. (\w+) resumed>(.*)$", rest)
+            if r:
+                prev = pending.pop(pid, r.group(1) + "(")
+                if prev == "close_done":
+                    continue
+                rest = prev + r.group(2)
         c = CALL.match(rest)
         if not c:
             continue
@@ -69,6 +82,12 @@ def convert(path, root):
                 continue
             p, flags = mm.group(1), mm.group(2)
             fd = int(ret)
+            stale = fds.pop(fd, None)
+            if stale and stale.get("kind") == "file":
+                out.append({"e": "dropw", "p": stale["name"]})
+            elif stale and stale.get("kind") == "tmp":
+                stale["closed"] = True
+                fds[("closedtmp", stale["name"])] = stale
             if p == root:
                 fds[fd] = {"kind": "dir"}
             elif p.startswith(root + "/"):
